@@ -23,20 +23,23 @@ structure SbxObj where
   slots  : Nat → Option Nat := fun _ => none     -- backend callback_unique_keys[k], k < max
   cache  : String → Option Nat := fun _ => none  -- func_ptr_map: name ↦ library it was resolved in
   lib    : Nat := 0                              -- library bound at creation
+  inc    : Nat := 0                              -- sandbox_incarnation: number of destroy_sandbox calls so far
+  rgn    : Nat := 0                              -- the memory region (address slot) the backend mapped at the last creation
 deriving Inhabited
 
 structure World where
   max    : Nat                          -- MAX_CALLBACKS of the backend
   sbx    : Nat → SbxObj
   reg    : List Nat                     -- sandbox_list: live sandbox objects, in insertion order
-  owners : Nat → Option (Nat × Nat)     -- sandbox_callback owner ↦ (sandbox, function) it holds
+  owners : Nat → Option (Nat × Nat × Nat)   -- sandbox_callback owner ↦ (sandbox, function, incarnation at registration)
+  mapped : List Nat := []               -- regions currently mapped by the backend (created sandboxes and late-failed creations)
 deriving Inhabited
 
 def World.init (maxSlots : Nat) : World :=
   { max := maxSlots, sbx := fun _ => {}, reg := [], owners := fun _ => none }
 
 def World.setS (w : World) (i : Nat) (s : SbxObj) : World := { w with sbx := fun j => if j = i then s else w.sbx j }
-def World.setO (w : World) (o : Nat) (v : Option (Nat × Nat)) : World :=
+def World.setO (w : World) (o : Nat) (v : Option (Nat × Nat × Nat)) : World :=
   { w with owners := fun p => if p = o then v else w.owners p }
 
 /-- first index `k` in `[i, i+fuel)` with `p k` -/
@@ -45,21 +48,30 @@ def scanIdx (p : Nat → Bool) (i : Nat) : Nat → Option Nat
   | f + 1 => if p i then some i else scanIdx p (i + 1) f
 
 /-- `create_sandbox`: compare-exchange NOT_CREATED -> INITIALIZING (abort otherwise), backend
-create, on success store CREATED and append to the list; on failure the object stays INITIALIZING. -/
-def World.create (w : World) (i : Nat) (ok : Bool) (lib : Nat) : Option (World × Bool) :=
+create in region `r` (a backend cannot map a region that is in use), on success store CREATED and
+append to the list; on failure the object stays INITIALIZING (its memory stays mapped: the backend
+failed late).  By default object `i` uses region `i`; distinct sandbox objects may use the same
+region one after the other. -/
+def World.create (w : World) (i : Nat) (ok : Bool) (lib : Nat) (r : Nat := i) : Option (World × Bool) :=
   let s := w.sbx i
   if s.status ≠ .notCreated then none else
-  if ok then some ({ w.setS i { s with status := .created, lib := lib } with reg := w.reg ++ [i] }, true)
-  else some (w.setS i { s with status := .initializing }, false)
+  if r ∈ w.mapped then none else
+  if ok then some ({ w.setS i { s with status := .created, lib := lib, rgn := r } with reg := w.reg ++ [i], mapped := r :: w.mapped }, true)
+  else some ({ w.setS i { s with status := .initializing, rgn := r } with mapped := r :: w.mapped }, false)
+
+/-- the sandbox object after `destroy_sandbox`: nothing of this incarnation is left -/
+def destroyedObj (s : SbxObj) : SbxObj :=
+  { status := .notCreated, keys := fun _ => false, slots := fun _ => none, cache := fun _ => none,
+    lib := s.lib, inc := s.inc + 1, rgn := s.rgn }
 
 /-- `destroy_sandbox`: compare-exchange CREATED -> CLEANING_UP (abort otherwise), erase from the
-list (abort if absent), store NOT_CREATED, clear the symbol cache, backend destroy.
-`callback_keys` and the backend slot table are left as they are. -/
+list (abort if absent), clear the symbol cache, clear `callback_keys` and advance the incarnation
+counter, store NOT_CREATED, backend destroy (which clears its entry-point table). -/
 def World.destroy (w : World) (i : Nat) : Option World :=
   let s := w.sbx i
   if s.status ≠ .created then none else
   if i ∉ w.reg then none else
-  some { w.setS i { s with status := .notCreated, cache := fun _ => none } with reg := w.reg.erase i }
+  some { w.setS i (destroyedObj s) with reg := w.reg.erase i, mapped := w.mapped.erase s.rgn }
 
 def firstFree (w : World) (s : SbxObj) : Option Nat := scanIdx (fun k => (s.slots k).isNone) 0 w.max
 def slotOf (w : World) (s : SbxObj) (f : Nat) : Option Nat := scanIdx (fun k => s.slots k == some f) 0 w.max
@@ -79,15 +91,16 @@ def registeredObj (w : World) (i f k : Nat) : SbxObj :=
     slots := fun j => if j = k then some f else (w.sbx i).slots j }
 
 /-- `sandbox_callback::unregister()` / destructor: if the owner holds a registration, call
-`unregister_callback(key)` on its sandbox (silently ignored unless CREATED; aborts when the key is
-not in `callback_keys`), then become empty. -/
+`unregister_callback(key, incarnation)` on its sandbox (silently ignored unless CREATED and still in
+the incarnation the registration was made in; aborts when the key is not in `callback_keys`), then
+become empty. -/
 def World.release (w : World) (o : Nat) : Option World :=
   match w.owners o with
   | none => some w
-  | some (i, f) =>
+  | some (i, f, n) =>
     let s := w.sbx i
     let w1 := w.setO o none
-    if s.status ≠ .created then some w1 else
+    if s.status ≠ .created ∨ s.inc ≠ n then some w1 else
     if s.keys f = false then none else
     some (w1.setS i (releasedObj w i f))
 
@@ -107,7 +120,7 @@ def World.registerNew (w : World) (i t f : Nat) : Option (World × Nat) :=
   if s.keys f then none else
   match firstFree w s with
   | none => none
-  | some k => some ((w.setS i (registeredObj w i f k)).setO t (some (i, f)), k)
+  | some k => some ((w.setS i (registeredObj w i f k)).setO t (some (i, f, s.inc)), k)
 
 /-- the owner index used for the temporary returned by `register_callback` -/
 def tmpOwner : Nat := 1000000
@@ -118,10 +131,9 @@ def World.register (w : World) (i o f : Nat) : Option (World × Nat) :=
   | none => none
   | some (w1, k) => (w1.moveOwner o tmpOwner).map fun w2 => (w2, k)
 
-/-- `find_sandbox_from_example(address inside the region of sandbox object i)`: the first live list
-entry whose region contains the address; regions of distinct live objects are disjoint, so this is
-`i` iff `i` is in the list -/
-def World.find (w : World) (i : Nat) : Option Nat := w.reg.find? (· == i)
+/-- `find_sandbox_from_example(address inside region r)`: the first live list entry whose region
+contains the address -/
+def World.find (w : World) (r : Nat) : Option Nat := w.reg.find? (fun j => (w.sbx j).rgn == r)
 
 /-- inside the created window? (`malloc_in_sandbox` returns null outside it, `free_in_sandbox` and
 `unregister_callback` are ignored, `register_callback` aborts) -/
@@ -136,7 +148,7 @@ def World.lookup (w : World) (i : Nat) (name : String) : World × Nat :=
 
 /-- the operations of a history -/
 inductive LOp
-  | create (i : Nat) (ok : Bool) (lib : Nat)
+  | create (i : Nat) (ok : Bool) (lib : Nat) (r : Nat)
   | destroy (i : Nat)
   | register (i o f : Nat)
   | release (o : Nat)
@@ -146,7 +158,7 @@ deriving Repr
 
 /-- one step of a history; an aborting operation ends the process, modelled as "state unchanged" -/
 def World.step (w : World) : LOp → World
-  | .create i ok lib => match w.create i ok lib with | some (w', _) => w' | none => w
+  | .create i ok lib r => match w.create i ok lib r with | some (w', _) => w' | none => w
   | .destroy i => (w.destroy i).getD w
   | .register i o f => match w.register i o f with | some (w', _) => w' | none => w
   | .release o => (w.release o).getD w
